@@ -53,6 +53,9 @@ type Spec struct {
 	// LenientResultVID: a write result that carries no version id is not compared with the
 	// model's id (asynchronous layers cannot know it); the id is still checked by observation.
 	LenientResultVID bool
+	// PreObserveKey (optional) contributes to the state key something that the observation after
+	// the step destroys (e.g. the pending outbox entries, which blocked reads drain).
+	PreObserveKey func(c *StepCtx) string
 	// WorkerStep executes the environment action "one background worker pass".
 	WorkerStep func(w *world.World, under storage.Storage)
 	// Extra is an additional oracle evaluated in the worker after the last op.
@@ -260,6 +263,10 @@ func RunStep(t *testing.T, j job) (res stepResult) {
 			res.Diffs = append(res.Diffs, DiffRes(*j.Op, mr, ctx.ImplR)...)
 		}
 		var idiffs []Diff
+		preKey := ""
+		if spec.PreObserveKey != nil {
+			preKey = spec.PreObserveKey(ctx)
+		}
 		ctx.Post, idiffs = d.Observe(spec.Buckets, spec.Keys)
 		hidden, err := DumpHidden(context.Background(), w.RawDB, w.FSDirs)
 		if err != nil {
@@ -290,7 +297,7 @@ func RunStep(t *testing.T, j job) (res stepResult) {
 			}
 		}
 		ob, _ := json.Marshal(zeroLastMod(ctx.Post))
-		h := sha256.Sum256([]byte(renumberVIDs(string(ob)+"\n"+modelKey(m, spec.Buckets, spec.Keys)) + "\n" + hidden))
+		h := sha256.Sum256([]byte(renumberVIDs(string(ob)+"\n"+modelKey(m, spec.Buckets, spec.Keys)) + "\n" + hidden + "\n" + preKey))
 		res.Key = hex.EncodeToString(h[:12])
 	})
 	if spec.Faults && j.Op != nil && res.Trace == "" {
